@@ -86,11 +86,15 @@ STATEMENTS = {
 }
 
 
-def script(mode, k, n, autoprove, flavour="mul", chdir=False, operation=None):
+def script(mode, k, n, autoprove, flavour="mul", chdir=False, operation=None, thread_import=False):
     term = MODES[mode][0]
     stm = STATEMENTS[flavour]
     prelude = MODES[mode][3] if len(MODES[mode]) > 3 else "pass"
-    L = ["import sys", "import site", "import json", "import os", prelude, "import pysnark.runtime as rt", "from pysnark.runtime import PrivVal, PubVal",
+    L = ["import sys", "import site", "import json", "import os", prelude,
+         # the library is first imported by a helper thread (a computation started in a thread with a bigger stack, a lazy
+         # import inside a worker): the script itself still ends in the main thread
+         "import threading; _t = threading.Thread(target=lambda: __import__('pysnark.runtime')); _t.start(); _t.join()" if thread_import else "pass",
+         "import pysnark.runtime as rt", "from pysnark.runtime import PrivVal, PubVal",
          # the script moves to its output directory after the imports: artefacts belong where the script is when it ends
          "os.makedirs('out'); os.chdir('out')" if chdir else "pass",
          "_orig = rt.backend.prove",
@@ -154,7 +158,7 @@ def run_case(case, tmp):
             os.remove(os.path.join(tmp, f))
     flavour = case.get("flavour", "mul")
     chdir = bool(case.get("chdir"))
-    open(os.path.join(tmp, "prog.py"), "w").write(script(mode, k, n, autoprove, flavour, chdir, case.get("operation")))
+    open(os.path.join(tmp, "prog.py"), "w").write(script(mode, k, n, autoprove, flavour, chdir, case.get("operation"), bool(case.get("thread_import"))))
     envv = dict(os.environ)
     envv.update({"PYSNARK_BACKEND": backend, "QAPTOOLS_BIN": os.path.join(backends.SHIMS, "qapbin"),
                  "PYTHONPATH": backends.REPO + os.pathsep + os.path.join(backends.SHIMS, "fb") + core.COVPATH,
@@ -313,6 +317,8 @@ def run(ctx):
                 cases.append({"mode": mode, "k": k, "n": n, "backend": backend, "autoprove": "off-then-on"})
             if k in (0, n):
                 cases.append({"mode": mode, "k": k, "n": n, "backend": backend, "autoprove": ap, "operation": ["prove", "keygen", "verify"][(k + len(mode)) % 3]})
+            if k in (0, n) and ap:
+                cases.append({"mode": mode, "k": k, "n": n, "backend": backend, "autoprove": ap, "thread_import": True})
             if k == n and ap and backend != "qaptools":      # qaptools opens its (relative) work files when it is initialised
                 cases.append({"mode": mode, "k": k, "n": n, "backend": backend, "autoprove": ap, "chdir": True})
     jobs = [dict(cases=cases[i::16]) for i in range(16)]
